@@ -51,11 +51,12 @@ def check_grads(prog, skip, shadow, grads, bw_idx, names, rng, tau=1e-8, M=0.0, 
         gl = None if g is None else np.asarray(g, dtype=LD)
         gmax = 0.0 if g is None or np.size(g) == 0 else float(np.max(np.abs(g)))
         S = max(1.0, gmax, M)
+        tau_t = tau if (g is None or g.dtype == np.float64) else max(tau, 64 * float(np.finfo(g.dtype).eps))
         for V in directions(rng, idx.shape, full_upto, nrand):
             delta = scatter_delta(oshape, idx, V)
             got = LD(0) if gl is None else (gl * np.asarray(V, dtype=LD)).sum()
             cnt["fd_dirs"] += 1
-            verdict, info = judge(got, fd, bw_idx, e, o, delta, f0, tau, S)
+            verdict, info = judge(got, fd, bw_idx, e, o, delta, f0, tau_t, S)
             if verdict == "ok":
                 cnt["fd_ok"] += 1
                 if g is None:
